@@ -55,7 +55,7 @@ func ruleCC6() Rule {
 							}
 						case push:
 							key := f.Name + "|heredoc.push()"
-							if f.Short == "yyParse" || strings.HasPrefix(f.Short, "(*yyParserImpl)") {
+							if f.Generated {
 								rr.OK(f, key, call.Pos(), "reduction", "pushed from a reduce action (GR4 checks that it needs no look-ahead)")
 							} else {
 								rr.Bad(f, key, call.Pos(), "heredoc.push is called outside the grammar's reduce actions")
